@@ -37,20 +37,21 @@ class MyErr(Exception):
 
 
 def make_harness(max_events, max_depth, roots=1, allow_gen=True, allow_cancel=True, allow_raise=True, allow_stop=True,
-                 allow_nested_complete=True, max_ticks=30, two_generators=False):
+                 allow_nested_complete=True, max_ticks=30, two_generators=False, allow_call=False, fanout=2):
     def harness(g):
         log = []            # ('h', name, 'hi'|'lo'|'gen2') / ('complete', name) / ('exc', name)
         info = {}           # name -> dict(parent, depth, cancelled, complete, obj)
         count = {'n': 0}
 
-        def new_event(comp, name, parent, depth, complete=False, cancelled=False):
+        def new_event(comp, name, parent, depth, complete=False, cancelled=False, fire=True):
             e = node(name)
             if complete:
                 e.complete = True
             info[name] = {'parent': parent, 'depth': depth, 'cancelled': cancelled, 'complete': complete, 'obj': e,
                           'from_gen': False}
             count['n'] += 1
-            comp.fire(e)
+            if fire:
+                comp.fire(e)
             if cancelled:
                 e.cancel()
             return e
@@ -59,7 +60,7 @@ def make_harness(max_events, max_depth, roots=1, allow_gen=True, allow_cancel=Tr
             rec = info[name]
             if rec['depth'] >= max_depth:
                 return
-            n = g.choose('nchild_%s_%s' % (name, tag), 3)
+            n = g.choose('nchild_%s_%s' % (name, tag), fanout + 1)
             for i in range(n):
                 if count['n'] >= max_events:
                     break
@@ -82,6 +83,8 @@ def make_harness(max_events, max_depth, roots=1, allow_gen=True, allow_cancel=Tr
                 kinds = ['plain']
                 if allow_gen and rec['depth'] < max_depth:
                     kinds.append('gen')
+                if allow_call and rec['depth'] < max_depth and count['n'] < max_events:
+                    kinds.append('call')
                 kind = g.pick('kind_%s' % name, kinds) if len(kinds) > 1 else 'plain'
                 fire_children(self, name, 's')
                 ends = ['ok']
@@ -102,6 +105,21 @@ def make_harness(max_events, max_depth, roots=1, allow_gen=True, allow_cancel=Tr
                         if end == 'raise':
                             raise MyErr(name)
                     return gen()
+                if kind == 'call':
+                    rec['kind'] = 'gen'
+
+                    def genc():
+                        # the handler suspends in call(): the called event and everything below it belong to the closure,
+                        # and so does whatever the continuation fires once the call has returned
+                        cname = '%s.c0' % name
+                        ce = new_event(self, cname, name, rec['depth'] + 1, fire=False)
+                        info[cname]['from_gen'] = True
+                        yield self.call(ce)
+                        log.append(('h', name, 'gen2'))
+                        fire_children(self, name, 'g')
+                        if end == 'raise':
+                            raise MyErr(name)
+                    return genc()
                 if end == 'raise':
                     raise MyErr(name)
 
@@ -194,15 +212,16 @@ def make_harness(max_events, max_depth, roots=1, allow_gen=True, allow_cancel=Tr
     return harness
 
 
-ENC = [M.Manager._fire, M.Manager._dispatcher, M.Manager._eventDone, M.Manager.processTask, M.Manager.tick]
+ENC = [M.Manager._fire, M.Manager._dispatcher, M.Manager._eventDone, M.Manager._effectDone, M.Manager.processTask, M.Manager.tick]
 
 
 def canaries():
     from harness.common import mutate
     return [
         ('effects-not-incremented', 'tree', lambda: mutate(M.Manager, '_fire', 'self._currently_handling.effects += 1', 'pass'), ['complete-too-early', 'complete-twice']),
-        ('complete-at-first-zero-only-root', 'tree', lambda: mutate(M.Manager, '_eventDone', 'if event.effects > 0:', 'if event.effects > 1:'), None),
+        ('complete-at-first-zero-only-root', 'tree', lambda: mutate(M.Manager, '_effectDone', 'if event.effects > 0:', 'if event.effects > 1:'), None),
         ('only-first-generator-counted', 'two-generator-handlers', lambda: mutate(M.Manager, '_dispatcher', 'event.waitingHandlers += 1\n                event.value.promise = True', 'event.waitingHandlers += 0 if event.value.promise else 1\n                event.value.promise = True'), None),
+        ('handling-cleared-after-step', 'call-in-generator', lambda: mutate(M.Manager, 'processTask', 'value = next(task)\n', 'value = next(task)\n        self._currently_handling = None\n'), None),
         ('cause-not-inherited', 'tree', lambda: mutate(M.Manager, '_fire', 'event.cause = self._currently_handling', 'event.cause = self._currently_handling.cause'), None),
     ]
 
@@ -212,19 +231,27 @@ def parts(tier):
         return [
             Part('tree', make_harness(max_events=4, max_depth=2, allow_gen=False),
                  bounds={'max_events': 4, 'max_depth': 2, 'roots': 1, 'child_kinds': ['normal', 'cancelled', 'complete'], 'ends': ['ok', 'stop', 'raise'], 'generators': False},
-                 encoded=ENC[:3], budget_s=70),
+                 encoded=ENC[:4], budget_s=70),
             Part('tree-generators', make_harness(max_events=4, max_depth=2, allow_gen=True, allow_stop=False, allow_nested_complete=False),
                  bounds={'max_events': 4, 'max_depth': 2, 'roots': 1, 'child_kinds': ['normal', 'cancelled'], 'ends': ['ok', 'raise'], 'generators': True},
                  encoded=ENC, budget_s=70),
+            Part('call-in-generator', make_harness(max_events=5, max_depth=4, allow_gen=False, allow_call=True, allow_stop=False, allow_raise=False,
+                                                   allow_nested_complete=False, allow_cancel=False, max_ticks=60, fanout=1),
+                 bounds={'max_events': 5, 'max_depth': 4, 'roots': 1, 'fanout': 1, 'child_kinds': ['normal'], 'ends': ['ok'],
+                         'generators': 'a handler may suspend in call(child) and fire children when the call returns'},
+                 encoded=ENC + [M.Manager.callEvent, M.Manager.waitEvent], budget_s=70),
             Part('two-generator-handlers', make_harness(max_events=3, max_depth=1, allow_gen=True, allow_stop=False, allow_nested_complete=False, allow_cancel=False, two_generators=True),
                  bounds={'max_events': 3, 'max_depth': 1, 'roots': 1, 'generators': 'both handlers of an event may be generators of different length', 'ends': ['ok', 'raise']},
                  encoded=ENC, budget_s=70),
         ]
     return [
         Part('tree', make_harness(max_events=6, max_depth=3, allow_gen=False),
-             bounds={'max_events': 6, 'max_depth': 3, 'roots': 1, 'generators': False}, encoded=ENC[:3], budget_s=900),
+             bounds={'max_events': 6, 'max_depth': 3, 'roots': 1, 'generators': False}, encoded=ENC[:4], budget_s=900),
         Part('tree-generators', make_harness(max_events=5, max_depth=3, allow_gen=True),
              bounds={'max_events': 5, 'max_depth': 3, 'roots': 1, 'generators': True}, encoded=ENC, budget_s=900),
+        Part('call-in-generator', make_harness(max_events=6, max_depth=5, allow_gen=True, allow_call=True, allow_stop=False, max_ticks=80),
+             bounds={'max_events': 6, 'max_depth': 5, 'roots': 1, 'generators': 'plain yield or call(child)'},
+             encoded=ENC + [M.Manager.callEvent, M.Manager.waitEvent], budget_s=900),
         Part('two-roots', make_harness(max_events=5, max_depth=2, roots=2, allow_gen=True, allow_stop=False),
              bounds={'max_events': 5, 'max_depth': 2, 'roots': 2, 'generators': True}, encoded=ENC, budget_s=900),
     ]
